@@ -34,15 +34,25 @@ func mapFieldOfTerm(t *an.Term) (field, ver string, ok bool) {
 
 type mapOp struct {
 	fn    *ssa.Function
-	in    ssa.Instruction
+	in    ssa.Instruction // the instruction in fn (for an operation performed by a straight-line helper: the call of the helper)
 	field string
 	kind  string // insert | delete
 	key   *an.Term
 	val   ssa.Value
+	valT  *an.Term // the inserted value as a term of fn
+	via   *ssa.Function
 }
 
-// serverMapOps lists the inserts and deletes on GCAServer map fields in fn.
+// serverMapOps lists the inserts and deletes on GCAServer map fields in fn,
+// including those performed by straight-line helpers fn calls (a helper that
+// only names a statement sequence - registerX(ea), banX(id, key) - is
+// transparent: its operations are attributed to the call, with the helper's
+// parameters replaced by the arguments).
 func serverMapOps(p *an.Program, fn *ssa.Function, typ string) []mapOp {
+	return serverMapOpsDepth(p, fn, typ, 0)
+}
+
+func serverMapOpsDepth(p *an.Program, fn *ssa.Function, typ string, depth int) []mapOp {
 	fi := p.Info(fn)
 	var out []mapOp
 	for _, b := range fn.Blocks {
@@ -51,14 +61,30 @@ func serverMapOps(p *an.Program, fn *ssa.Function, typ string) []mapOp {
 			case *ssa.MapUpdate:
 				cls := fi.RefClass(in.Map)
 				if f, ok := cls.FieldOf(typ); ok && len(cls.Path) == 1 {
-					out = append(out, mapOp{fn, in, f, "insert", fi.Term(in.Key), in.Value})
+					out = append(out, mapOp{fn, in, f, "insert", fi.Term(in.Key), in.Value, fi.Term(in.Value), nil})
 				}
 			case *ssa.Call:
 				if bi, ok := in.Call.Value.(*ssa.Builtin); ok && bi.Name() == "delete" {
 					cls := fi.RefClass(in.Call.Args[0])
 					if f, ok := cls.FieldOf(typ); ok && len(cls.Path) == 1 {
-						out = append(out, mapOp{fn, in, f, "delete", fi.Term(in.Call.Args[1]), nil})
+						out = append(out, mapOp{fn, in, f, "delete", fi.Term(in.Call.Args[1]), nil, nil, nil})
 					}
+					continue
+				}
+				sc := in.Call.StaticCallee()
+				if sc == nil || depth >= 2 || sc == fn || sc.Pkg != fn.Pkg || !p.Transparent(sc) {
+					continue
+				}
+				for _, op := range serverMapOpsDepth(p, sc, typ, depth+1) {
+					k := fi.InstantiateTerm(op.key, in)
+					if k == nil {
+						continue
+					}
+					var vt *an.Term
+					if op.valT != nil {
+						vt = fi.InstantiateTerm(op.valT, in)
+					}
+					out = append(out, mapOp{fn, in, op.field, op.kind, k, op.val, vt, sc})
 				}
 			}
 		}
@@ -72,6 +98,9 @@ func keyset(c *an.Ctx, scope []*ssa.Function, prop string) {
 	p := c.P
 	n := 0
 	for _, fn := range scope {
+		if isAttributedHelper(p, fn) {
+			continue
+		}
 		ops := serverMapOps(p, fn, "GCAServer")
 		for _, op := range ops {
 			if !isSibling(op.field) {
@@ -96,6 +125,12 @@ func keyset(c *an.Ctx, scope []*ssa.Function, prop string) {
 			if op.kind == "insert" {
 				if _, isPtr := op.val.Type().Underlying().(*types.Pointer); isPtr {
 					_, isAlloc := op.val.(*ssa.Alloc)
+					if !isAlloc {
+						// new(T) evaluated at a call site and passed in
+						if op.valT != nil && op.valT.K == an.KAlloc {
+							isAlloc = true
+						}
+					}
 					c.Check(isAlloc, "KEYSET", fn, op.in.Pos(), an.KeyOf(fn, "nonnil:"+op.field),
 						"value inserted into "+op.field+" is a new allocation (never nil)", "stored value: "+op.val.String())
 				}
@@ -381,4 +416,9 @@ func factList(fs an.FactSet) string {
 		out = append(out[:6], "...")
 	}
 	return "[" + strings.Join(out, "; ") + "]"
+}
+
+// isAttributedHelper: fn is a straight-line helper with callers, so its map operations are attributed to them.
+func isAttributedHelper(p *an.Program, fn *ssa.Function) bool {
+	return p.Transparent(fn) && len(p.CallSites(fn)) > 0
 }
